@@ -1,2 +1,150 @@
-From Cmr Require Import Base Det RelModel.
-Theorem placeholder_C10 : True. Proof. exact I. Qed.
+(* Properties_C10.v — C10: verdicts are invariant under the operations the matrix classes are closed under.
+   The oracles tu_bf / sp_greedy / balanced_bf are the executable definitions the recognizers are compared with in
+   C01 / C08 / C17 (tu_bf is proved equal to the determinant definition in TuProofs.v); here they are proved invariant
+   under exactly the transforms that judge_rel accepts, and judge_rel is proved to demand exactly the corresponding
+   relation between the implementation's verdict vectors.  Proofs: TuClosure.v (MathComp), RelProofs.v. *)
+From Cmr Require Import Base Det SpModel RelModel.
+From Cmr Require TuClosure RelProofs TuProofs.
+From mathcomp Require ssralg matrix ssrZ.
+Local Open Scope Z_scope.
+
+(* ---------- total unimodularity ---------- *)
+Theorem C10_tu_permutation : forall m n M rp cp,
+  is_perm_l m rp = true -> is_perm_l n cp = true -> tu_bf m n (submat M rp cp) = tu_bf m n M.
+Proof. exact TuClosure.tu_bf_perm. Qed.
+Print Assumptions C10_tu_permutation.
+
+Theorem C10_tu_transpose : forall m n M, tu_bf n m (transpose m n M) = tu_bf m n M.
+Proof. exact TuClosure.tu_bf_transpose. Qed.
+Print Assumptions C10_tu_transpose.
+
+Theorem C10_tu_scaling : forall m n M rs cs,
+  length rs = m -> length cs = n -> forallb is_pm1' rs = true -> forallb is_pm1' cs = true ->
+  tu_bf m n (mk_mat m n (fun i j => nthZ rs i * nthZ cs j * get M i j)) = tu_bf m n M.
+Proof. exact TuClosure.tu_bf_scale. Qed.
+Print Assumptions C10_tu_scaling.
+
+Theorem C10_tu_submatrix : forall m n M rs cs,
+  all_lt m rs = true -> all_lt n cs = true -> tu_bf m n M = true ->
+  tu_bf (length rs) (length cs) (submat M rs cs) = true.
+Proof. exact TuClosure.tu_bf_submat. Qed.
+Print Assumptions C10_tu_submatrix.
+
+(* adding a zero line, a (signed) unit line or a (signed) copy of another line *)
+Theorem C10_tu_add_reducible_line : forall m' n' M' (isr : bool) k,
+  is_ternary M' = true -> (if isr then Nat.ltb k m' else Nat.ltb k n') = true ->
+  line_reducible true m' n' M' isr k = true ->
+  tu_bf m' n' M' = if isr then tu_bf (m' - 1) n' (submat M' (keep_line m' k) (iota 0 n'))
+                   else tu_bf m' (n' - 1) (submat M' (iota 0 m') (keep_line n' k)).
+Proof. exact TuClosure.tu_bf_add_line. Qed.
+Print Assumptions C10_tu_add_reducible_line.
+
+(* 1-sums: block-diagonal composition, at the level of the definition *)
+Theorem C10_tu_block_diagonal : forall m1 n1 m2 n2 (A : matrix.matrix Z m1 n1) (B : matrix.matrix Z m2 n2),
+  TuProofs.TUmx (matrix.block_mx A
+       (ssralg.GRing.zero (matrix.matrix_zmodType ssrZ.ZInstances.Z_zmodType m1 n2))
+       (ssralg.GRing.zero (matrix.matrix_zmodType ssrZ.ZInstances.Z_zmodType m2 n1)) B)
+  <-> TuProofs.TUmx A /\ TuProofs.TUmx B.
+Proof. exact TuClosure.TUmx_block_diag_iff. Qed.
+Print Assumptions C10_tu_block_diagonal.
+
+(* ---------- series-parallel ---------- *)
+Theorem C10_sp_permutation : forall t m n M rp cp,
+  is_perm_l m rp = true -> is_perm_l n cp = true -> sp_greedy t m n (submat M rp cp) = sp_greedy t m n M.
+Proof. exact RelProofs.sp_greedy_perm. Qed.
+Print Assumptions C10_sp_permutation.
+
+Theorem C10_sp_transpose : forall t m n M, sp_greedy t n m (transpose m n M) = sp_greedy t m n M.
+Proof. exact RelProofs.sp_greedy_transpose. Qed.
+Print Assumptions C10_sp_transpose.
+
+Theorem C10_sp_scaling : forall m n M rs cs,
+  length rs = m -> length cs = n -> forallb is_pm1' rs = true -> forallb is_pm1' cs = true ->
+  sp_greedy true m n (mk_mat m n (fun i j => nthZ rs i * nthZ cs j * get M i j)) = sp_greedy true m n M.
+Proof. exact RelProofs.sp_greedy_scale. Qed.
+Print Assumptions C10_sp_scaling.
+
+Theorem C10_sp_add_reducible_line : forall t m' n' M' (isr : bool) k,
+  line_reducible t m' n' M' isr k = true -> (k < (if isr then m' else n'))%nat ->
+  sp_greedy t m' n' M' = if isr then sp_greedy t (m' - 1) n' (submat M' (keep_line m' k) (iota 0 n'))
+                         else sp_greedy t m' (n' - 1) (submat M' (iota 0 m') (keep_line n' k)).
+Proof. exact RelProofs.sp_greedy_add_line. Qed.
+Print Assumptions C10_sp_add_reducible_line.
+
+Theorem C10_sp_submatrix : forall t m n M rs cs,
+  strictly_increasing rs = true -> all_lt m rs = true -> strictly_increasing cs = true -> all_lt n cs = true ->
+  sp_greedy t m n M = true -> sp_greedy t (length rs) (length cs) (submat M rs cs) = true.
+Proof. exact RelProofs.sp_greedy_submat. Qed.
+Print Assumptions C10_sp_submatrix.
+
+(* ---------- balancedness ---------- *)
+Theorem C10_balanced_permutation : forall m n M rp cp,
+  is_perm_l m rp = true -> is_perm_l n cp = true -> balanced_bf m n (submat M rp cp) = balanced_bf m n M.
+Proof. exact RelProofs.balanced_bf_perm. Qed.
+Print Assumptions C10_balanced_permutation.
+
+Theorem C10_balanced_transpose : forall m n M, balanced_bf n m (transpose m n M) = balanced_bf m n M.
+Proof. exact RelProofs.balanced_bf_transpose. Qed.
+Print Assumptions C10_balanced_transpose.
+
+Theorem C10_balanced_scaling : forall m n M rs cs, is_ternary M = true ->
+  length rs = m -> length cs = n -> forallb is_pm1' rs = true -> forallb is_pm1' cs = true ->
+  balanced_bf m n (mk_mat m n (fun i j => nthZ rs i * nthZ cs j * get M i j)) = balanced_bf m n M.
+Proof. exact RelProofs.balanced_bf_scale. Qed.
+Print Assumptions C10_balanced_scaling.
+
+Theorem C10_balanced_submatrix : forall m n M rs cs,
+  strictly_increasing rs = true -> all_lt m rs = true -> strictly_increasing cs = true -> all_lt n cs = true ->
+  balanced_bf m n M = true -> balanced_bf (length rs) (length cs) (submat M rs cs) = true.
+Proof. exact RelProofs.balanced_bf_submat. Qed.
+Print Assumptions C10_balanced_submatrix.
+
+(* ---------- the judge demands exactly these relations of the implementation's verdicts ----------
+   (a verdict entry is compared only if both presentations gave a definite 0/1 answer; the Camion entry only when one
+   side is reported TU, see DESIGN.md) *)
+Theorem C10_judge_permutation : forall rec p1 p2 m n M m' n' M' v v' rest i,
+  RelProofs.rel_input rec = Some ((1, p1, p2, (m, n, M), (m', n', M'), v, v'), rest) -> judge_rel rec = 0 ->
+  (i < 9)%nat -> RelProofs.is01 (vget v i) -> RelProofs.is01 (vget v' i) -> vget v i = vget v' i.
+Proof. exact RelProofs.judge_rel_kind1_verdicts. Qed.
+Print Assumptions C10_judge_permutation.
+
+Theorem C10_judge_scaling : forall rec p1 p2 m n M m' n' M' v v' rest i,
+  RelProofs.rel_input rec = Some ((2, p1, p2, (m, n, M), (m', n', M'), v, v'), rest) -> judge_rel rec = 0 ->
+  In i [V_TU; V_NET; V_CONET; V_SPT; V_BAL] ->
+  RelProofs.is01 (vget v i) -> RelProofs.is01 (vget v' i) -> vget v i = vget v' i.
+Proof. exact RelProofs.judge_rel_kind2_verdicts. Qed.
+Print Assumptions C10_judge_scaling.
+
+Theorem C10_judge_transpose : forall rec p1 p2 m n M m' n' M' v v' rest,
+  RelProofs.rel_input rec = Some ((3, p1, p2, (m, n, M), (m', n', M'), v, v'), rest) -> judge_rel rec = 0 ->
+  (forall i, In i [V_TU; V_REG; V_SPT; V_SPB; V_BAL] ->
+     RelProofs.is01 (vget v i) -> RelProofs.is01 (vget v' i) -> vget v i = vget v' i) /\
+  (forall i i', In (i, i') [(V_GRA, V_COG); (V_COG, V_GRA); (V_NET, V_CONET); (V_CONET, V_NET)] ->
+     RelProofs.is01 (vget v i) -> RelProofs.is01 (vget v' i') -> vget v i = vget v' i').
+Proof. exact RelProofs.judge_rel_kind3_verdicts. Qed.
+Print Assumptions C10_judge_transpose.
+
+Theorem C10_judge_add_line : forall rec p1 p2 m n M m' n' M' v v' rest i,
+  RelProofs.rel_input rec = Some ((4, p1, p2, (m, n, M), (m', n', M'), v, v'), rest) -> judge_rel rec = 0 ->
+  In i [V_TU; V_REG; V_GRA; V_COG; V_NET; V_CONET; V_SPT; V_BAL] ->
+  RelProofs.is01 (vget v i) -> RelProofs.is01 (vget v' i) -> vget v i = vget v' i.
+Proof. exact RelProofs.judge_rel_kind4_verdicts. Qed.
+Print Assumptions C10_judge_add_line.
+
+Theorem C10_judge_submatrix : forall rec p1 p2 m n M m' n' M' v v' rest i,
+  RelProofs.rel_input rec = Some ((5, p1, p2, (m, n, M), (m', n', M'), v, v'), rest) -> judge_rel rec = 0 ->
+  (i < 9)%nat -> RelProofs.is01 (vget v i) -> RelProofs.is01 (vget v' i) -> vget v i = 1 -> vget v' i = 1.
+Proof. exact RelProofs.judge_rel_kind5_verdicts. Qed.
+Print Assumptions C10_judge_submatrix.
+
+(* the judge also checks, rather than trusts, that M' is the stated transform of M *)
+Theorem C10_judge_checks_transform_permutation : forall rec p1 p2 m n M m' n' M' v v' rest,
+  RelProofs.rel_input rec = Some ((1, p1, p2, (m, n, M), (m', n', M'), v, v'), rest) -> judge_rel rec = 0 ->
+  let rp := map Z.to_nat p1 in let cp := map Z.to_nat p2 in
+  is_perm_l m rp = true /\ is_perm_l n cp = true /\ m' = m /\ n' = n /\ M' = submat M rp cp.
+Proof.
+  intros rec p1 p2 m n M m' n' M' v v' rest H J.
+  pose proof (RelProofs.judge_rel_kind1 rec p1 p2 m n M m' n' M' v v' rest H J) as K.
+  cbv zeta in K. cbv zeta. tauto.
+Qed.
+Print Assumptions C10_judge_checks_transform_permutation.
